@@ -322,6 +322,13 @@ class Executor(HeapMixin, ExprMixin, CallMixin, ContractMixin, StmtMixin):
             if nm.startswith(("SUMARG", "SORT", "MAXARG")):
                 env2[nm] = val
         env2["result"] = result
+        if c.proves:
+            lenv = dict(s.env)
+            lenv.update(env2)
+            for lab, txt in c.proves.items():
+                if lab.startswith("pre_"):
+                    g = self.spec_goal(txt, lenv, s, self.entry_state)
+                    self.oblige(s, "post", "proves." + lab, g, None, note=txt)
         for name, lem in c.post_lemmas.items():
             lenv = dict(s.env)
             lenv.update(env2)
@@ -339,6 +346,8 @@ class Executor(HeapMixin, ExprMixin, CallMixin, ContractMixin, StmtMixin):
             lenv = dict(s.env)
             lenv.update(env2)
             for lab, txt in c.proves.items():
+                if lab.startswith("pre_"):
+                    continue  # proved before the post-lemmas
                 g = self.spec_goal(txt, lenv, s, self.entry_state)
                 self.oblige(s, "post", "proves." + lab, g, None, note=txt)
         if c.overrides:
